@@ -962,7 +962,13 @@ func (vx *Vaxis) handleSequence(seq ansi.Sequence) {
 					vx.PostEventBlocking(textAreaChar{})
 					return
 				}
-				vx.chSizeDone <- true
+				// The report may be unsolicited or repeated, in
+				// which case nobody will take a second token:
+				// never block the input loop on it
+				select {
+				case vx.chSizeDone <- true:
+				default:
+				}
 			case 48:
 				// CSI <type> ; <height> ; <width> ; <height_pix> ; <width_pix> t
 				switch len(seq.Parameters) {
